@@ -23,4 +23,11 @@ def check(ctx: Ctx) -> str:
     sign_group_rule(ctx, "R2")
     lstrip_rules(ctx, "R3")
     lexer_key_rule(ctx, "R4")
+    # trim_blocks / lstrip_blocks of an overlay take effect only if the overlay neither keeps
+    # the parent's lexer nor serves the parent's cached templates
+    from . import c13
+    from . import c25
+
+    ctx.run_imported("C13", {"R6"}, c13.check)
+    ctx.run_imported("C25", {"R4"}, c25.check)
     return __doc__ or ""
